@@ -110,7 +110,8 @@ fn rand_word_base(rng: &mut Rng) -> String {
         if !w.chars().any(|c| c.is_whitespace() || c == ')' || c == '\'' || c == '"') { return w.clone(); }
     }
     const WORDS: &[&str] = &["foo", "*.txt", "a?c", "[ab]*", "Foo", "x", "data.out", "lustre", "user.attr", "é", "a-b", "file_1", "OUT", "t*",
-        "/dev/null", "/dev/stdout", "-", "/dev/stderr", ".", "..", "stdout", "0", "{}", "#f", "nil"];
+        "/dev/null", "/dev/stdout", "-", "/dev/stderr", ".", "..", "stdout", "0", "{}", "#f", "nil",
+        "\u{142}\u{f3}d\u{17a}", "\u{65e5}\u{672c}.txt", "\u{1d11e}.ogg", "\u{416}*", "na\u{ef}ve"];
     WORDS[rng.below(WORDS.len())].to_string()
 }
 
@@ -675,6 +676,17 @@ pub fn affix_programs() -> Vec<Expression> {
                 out.push(chain(vec![E::Action(mk(&b)), E::Action(mk(&v))]));
                 out.push(chain(vec![E::Action(mk(&v)), E::Action(mk(&b)), E::Action(Action::FilePrint(v.clone()))]));
             }
+        }
+    }
+    // the same pattern with and without regard to case, for patterns WITHOUT an ASCII letter (digits, punctuation,
+    // cased letters beyond ASCII): two different requests, and the case-blind one must match the other-case spelling
+    for b in ["\u{416}\u{423}\u{41a}*", "\u{c9}T\u{c9}_*", "\u{394}\u{39f}\u{39a}", "123*", "_.-", "\u{142}\u{f3}d\u{17a}*", "\u{436}\u{443}\u{43a}", "\u{e9}*"] {
+        for k in 0..2 {
+            let (ci, cs) = if k == 0 { (Test::InsensitiveName(b.to_string()), Test::Name(b.to_string())) } else { (Test::InsensitivePath(b.to_string()), Test::Path(b.to_string())) };
+            out.push(chain(vec![wrap(ci.clone()), wrap(cs.clone()), E::Action(Action::PrintNull)]));
+            out.push(chain(vec![wrap(cs.clone()), wrap(ci.clone()), E::Action(Action::Print)]));
+            out.push(chain(vec![op(Operator::And(E::Test(ci.clone()), E::Action(Action::Print)))]));
+            out.push(chain(vec![op(Operator::Or(op(Operator::And(E::Test(ci), E::Action(Action::FilePrint("ci".into())))), op(Operator::And(E::Test(cs), E::Action(Action::FilePrint("cs".into()))))))]));
         }
     }
     // strings that need escaping in the emitted text, requested TWICE, and beside their own escaped spelling
